@@ -36,7 +36,8 @@ theorem pres_opFill {c : Cfg} (hP : 0 < c.P) {s : State} (h : Inv c s) (i : Nat)
 
 theorem pres_doLock {c : Cfg} (hP : 0 < c.P) {s : State} (h : Inv c s) {i : Nat} {sl : Slot}
     {l1 l2 : List Slot} (hs : s.slots = l1 ++ sl :: l2) (hi : l1.length = i) (hg : sl.gone = false)
-    (pm : PM) (hst : blkOf sl.o = ⟨sl.o.v, pm.perm, false⟩) (hna : pm.perm ≠ .none ∨ sl.o.v.len = 0) :
+    (pm : PM) (hst : blkOf sl.o = ⟨sl.o.v, pm.perm, false⟩)
+    (hna : c.undo = true ∨ pm.perm ≠ .none ∨ sl.o.v.len = 0) :
     Pres c s (doLock c s i sl pm) := by
   have g := good_head hs hg h
   rw [hst] at g
@@ -55,7 +56,8 @@ theorem pres_doLock {c : Cfg} (hP : 0 < c.P) {s : State} (h : Inv c s) {i : Nat}
     rw [hst] at t'
     exact (tight_lockV hP t' g pm hna).2 hr'
 
-/-- the one operation that can leave a stray locked page: `lock` on a non-empty `NoAccess` region -/
+/-- the one operation that could leave a stray locked page before the repair of `dryoc_mlock`
+(`c.undo = false`): `lock` on a non-empty `NoAccess` region -/
 def LocksNoAccess (s : State) (t : Tok) : Prop :=
   t.op = .lock ∧ ∃ sl, s.slots[t.idx]? = some sl ∧ sl.gone = false ∧
     sl.o.st = .prot .unlocked .na ∧ 0 < sl.o.v.len
@@ -84,19 +86,21 @@ theorem inv_opLock {c : Cfg} (hP : 0 < c.P) {s : State} (h : Inv c s) (i : Nat) 
   · exact h
 
 theorem pres_opLock {c : Cfg} (hP : 0 < c.P) {s : State} (h : Inv c s) (i : Nat)
-    (hno : ¬ LocksNoAccess s ⟨.lock, i⟩) : Pres c s (opLock c s i) := by
+    (hno : c.undo = true ∨ ¬ LocksNoAccess s ⟨.lock, i⟩) : Pres c s (opLock c s i) := by
   unfold opLock
   apply withLive_elim _ _ _ _ (pres_same h _) (pres_same h _)
   intro sl l1 l2 hs hi hg
   split
   · rename_i hst
     exact pres_doLock hP h hs hi hg .rw (by simp [blkOf, hst, stPerm, stLocked, PM.perm])
-      (Or.inl (by simp [PM.perm]))
+      (Or.inr (Or.inl (by simp [PM.perm])))
   · rename_i pm hst
     refine pres_doLock hP h hs hi hg pm (by simp [blkOf, hst, stPerm, stLocked]) ?_
+    rcases hno with hu | hno
+    · exact Or.inl hu
     by_cases h0 : sl.o.v.len = 0
-    · exact Or.inr h0
-    · left
+    · exact Or.inr (Or.inr h0)
+    · right; left
       intro hp
       have : pm = .na := by cases pm <;> simp [PM.perm] at hp ⊢
       apply hno
